@@ -61,6 +61,10 @@ def run(ctx):
     kinds = ("memory", "local", "local_lru", "memory", "noop") if thorough else ("memory", "memory", "local", "local_lru", "noop")
     recs = hist.run_histories(ctx, res, 400 if thorough else 60, 10 if thorough else 6, store_kinds=kinds,
                               on_record=on_record)
+    # pipelines that read back, with dds.load, paths kept earlier in the same evaluation (and, after an edit that deletes the
+    # producer, paths committed by earlier evaluations)
+    recs += hist.run_histories(ctx, res, 120 if thorough else 30, 6, store_kinds=("memory", "local", "memory"), on_record=on_record,
+                               allow=("call", "ref", "keep", "datafn", "load"))
     # functions invoked from several sites (a path possibly kept twice): rejected explicitly, or every value right
     recs += hist.run_histories(ctx, res, 80 if thorough else 24, 3, store_kinds=("memory",), on_record=on_record, allow="multi")
     # directed stratum: literal arguments flowing down chains of keeps through run-time expressions
